@@ -115,7 +115,7 @@ def consumer_main(iq, c, sc, go, res_q, renew_req=None, renew_ack=None):
         res_q.put(('events', 'c', c, evs, revs))
     except BaseException as e:  # noqa: BLE001
         import traceback
-        res_q.put(('error', 'c', c, ''.join(traceback.format_exception(type(e), e, e.__traceback__))[-2000:], evs))
+        res_q.put(('error', 'c', c, ''.join(traceback.format_exception(type(e), e, e.__traceback__))[-2000:], evs, revs))
 
 
 def _run_scenario(sc, box):
@@ -160,6 +160,8 @@ def _run_scenario(sc, box):
                 return
             if msg[0] == 'error':
                 box['crash'] = {'who': f'{msg[1]}{msg[2]}', 'traceback': msg[3], 'events': msg[4]}
+                if len(msg) > 5 and msg[5]:
+                    box['renew_ev'] = msg[5]
                 return
             if msg[0] == 'done':
                 done += 1
@@ -186,6 +188,8 @@ def _run_scenario(sc, box):
             return
         if msg[0] == 'error':
             box['crash'] = {'who': f'{msg[1]}{msg[2]}', 'traceback': msg[3], 'events': msg[4]}
+            if len(msg) > 5 and msg[5]:
+                box['renew_ev'] = msg[5]
             return
         if msg[0] == 'events':
             seqs[(msg[1], msg[2])] = msg[3]
@@ -222,6 +226,8 @@ def run_job(job):
             rec['hang'] = box.get('hang') or box.get('crash') or {'what': f'scenario still running after {HANG_S}s'}
             rec['kind'] = 'crash' if 'crash' in box else 'hang'
             hangs.append(rec)
+            if box.get('renew_ev'):       # what renew() did before the crash is validated all the same
+                renew_traces.append({'id': item['id'], 'p': {'m': sc['m'], 'rounds': sc['rounds']}, 'ev': box['renew_ev'], 'sc': sc})
             for p in box.get('procs', []):
                 try:
                     if p.is_alive():
